@@ -2,8 +2,19 @@
    Theorems only (proofs in Acme.C04.Proofs_Xxx). "No mutating call panics" is what the
    correspondence run exhibits for the Go code (every call runs inside recover()); the model is
    total by construction. *)
-From Acme.C04 Require Import Spec Proofs_Noop.
+From Acme.C04 Require Import Spec Proofs_Noop Proofs_Pre.
 
 Theorem error_is_noop : forall s o, Inv s -> is_err (snd (step s o)) = true -> fst (step s o) = s.
 Proof. exact Proofs_Noop.error_is_noop. Qed.
 Print Assumptions error_is_noop.
+
+(* [pre], [viol], [doc_cause] (Acme.C04.Spec) are written from the doc comments of the Go methods in
+   terms of the contents: children listed by the containers and their fields, never the indexes *)
+Theorem refused_iff_pre : forall s o, Inv s -> (is_err (snd (step s o)) = true <-> ~ pre s o).
+Proof. exact Proofs_Pre.refused_iff_pre. Qed.
+Print Assumptions refused_iff_pre.
+
+Theorem cause_spec :
+  forall s o cs, Inv s -> snd (step s o) = Err cs -> cs <> nil /\ forall cw, In cw cs -> doc_cause s o cw.
+Proof. exact Proofs_Pre.cause_spec_In. Qed.
+Print Assumptions cause_spec.
